@@ -20,12 +20,12 @@ var zzEntries = map[string]func(){
 const zzMaxL = 8
 
 var (
-	zzN       int // lines available before EOF
-	zzPartial bool
-	zzKinds   [zzMaxL]int // 0 "\n", 1 "  \n", 2 field line, 3 malformed YAML
-	zzAlt     [zzMaxL]bool
-	zzNext    int
-	zzWritten [zzMaxL]bool
+	zzN        int // lines available before EOF
+	zzPartial  bool
+	zzKinds    [zzMaxL]int // 0 "\n", 1 "  \n", 2 field line, 3 malformed YAML
+	zzAlt      [zzMaxL]bool
+	zzNext     int
+	zzWritten  [zzMaxL]bool
 	zzBadWrite bool
 )
 
@@ -118,6 +118,16 @@ func zzStubReadString(r *bufio.Reader, delim byte) (string, error) {
 
 func zzStubWriteString(b *bytes.Buffer, s string) (int, error) {
 	j := zzNext - 1
+	if zzScanStarted {
+		// scanner mode: the token just returned, without its line terminator
+		j = zzCurTok
+		if j < 0 || j >= zzMaxL || s != zzLineTok(j) {
+			zzBadWrite = true
+			return 0, nil
+		}
+		zzWritten[j] = true
+		return len("x"), nil
+	}
 	if j < 0 || j >= zzMaxL || s != zzLineText(j) {
 		zzBadWrite = true
 		return 0, nil
@@ -125,6 +135,85 @@ func zzStubWriteString(b *bytes.Buffer, s string) (int, error) {
 	zzWritten[j] = true
 	return len("x"), nil
 }
+
+// ---- bufio.Scanner by contract (should the code use one): tokens are the lines
+// without their terminator; a Scanner may read ahead of the token it returns,
+// and with its 4096-byte buffer it drains streams of this size on the first Scan.
+var (
+	zzScanStarted bool
+	zzScanPos     int
+	zzCurTok      int
+)
+
+func zzStubNewScanner(r io.Reader) *bufio.Scanner { return &bufio.Scanner{} }
+
+func zzStubScan(s *bufio.Scanner) bool {
+	if !zzScanStarted {
+		zzScanStarted = true
+		zzScanPos = zzNext
+		zzNext = zzN // everything up to the end of the stream is now consumed from the reader
+	}
+	j := zzScanPos
+	zzScanPos++
+	if j < zzN {
+		zzCurTok = j
+		return true
+	}
+	if zzPartial && j == zzN {
+		zzCurTok = -2
+		return true
+	}
+	return false
+}
+
+func zzLineTok(j int) string {
+	if j == -2 {
+		return "frag"
+	}
+	switch zzLineText(j) {
+	case "\n":
+		return ""
+	case "  \n":
+		return "  "
+	case "oops: [1\n":
+		return "oops: [1"
+	case "ResX: wide\n":
+		return "ResX: wide"
+	case "ResX: 160\n":
+		return "ResX: 160"
+	case "ResY: tall\n":
+		return "ResY: tall"
+	case "ResY: 120\n":
+		return "ResY: 120"
+	case "FPS: fast\n":
+		return "FPS: fast"
+	case "FPS: 9\n":
+		return "FPS: 9"
+	case "FrameSize: big\n":
+		return "FrameSize: big"
+	case "FrameSize: 39040\n":
+		return "FrameSize: 39040"
+	case "Brand: 7\n":
+		return "Brand: 7"
+	case "Brand: flir\n":
+		return "Brand: flir"
+	case "Model: 35\n":
+		return "Model: 35"
+	case "Model: lepton3.5\n":
+		return "Model: lepton3.5"
+	case "CameraSerial: none\n":
+		return "CameraSerial: none"
+	case "CameraSerial: 12345\n":
+		return "CameraSerial: 12345"
+	case "Firmware: 3\n":
+		return "Firmware: 3"
+	}
+	return "Firmware: 1.2.3"
+}
+
+func zzStubText(s *bufio.Scanner) string            { return zzLineTok(zzCurTok) }
+func zzStubErr(s *bufio.Scanner) error              { return nil }
+func zzStubWriteByte(b *bytes.Buffer, c byte) error { return nil }
 
 func zzStubBytes(b *bytes.Buffer) []byte { return nil }
 
@@ -142,6 +231,9 @@ func zzStubLen(b *bytes.Buffer) int {
 func zzStubTrim(s, cutset string) string {
 	if s == "  \n" {
 		return "\n"
+	}
+	if s == "  " {
+		return ""
 	}
 	return s
 }
